@@ -198,7 +198,12 @@ void pop3_quit(arg) char *arg;
 int msgno(arg) char *arg;
 {
   unsigned long u;
-  if (!scan_ulong(arg,&u)) { err_syntax(); return -1; }
+  unsigned int n;
+  n = scan_ulong(arg,&u);
+  if (!n) { err_syntax(); return -1; }
+  /* scan_ulong wraps silently; more than 19 significant digits cannot be a message number */
+  while ((n > 19) && (*arg == '0')) { ++arg; --n; }
+  if (n > 19) { err_toobig(); return -1; }
   if (!u) { err_nozero(); return -1; }
   --u;
   if (u >= numm || u >= INT_MAX) { err_toobig(); return -1; }
